@@ -34,6 +34,11 @@ type CrashOp struct {
 	// Back: the same transaction then writes the value it had at its start
 	ReadFirst bool `json:"read_first,omitempty"`
 	Back      bool `json:"back,omitempty"`
+	// RaceID (init only): while Init runs, another goroutine creates this id
+	// with value RaceV; whoever commits first wins, and an acknowledged
+	// Create is never replaced by a seed
+	RaceID string `json:"race_id,omitempty"`
+	RaceV  int    `json:"race_v,omitempty"`
 }
 
 // CrashCase is a case of the crash scenario.
@@ -96,6 +101,9 @@ func (CrashScenario) GenCase(r *rand.Rand, prop string) interface{} {
 		if k := op.Kind; k == "update" || k == "delete" {
 			op.ReadFirst = chance(r, 40)
 			op.Back = chance(r, 25)
+		}
+		if op.Kind == "init" && chance(r, 40) {
+			op.RaceID, op.RaceV = pick(r, "s1", "s1", "s2", "1"), 900+v
 		}
 		c.Ops = append(c.Ops, op)
 	}
@@ -167,6 +175,10 @@ type crashRun struct {
 	safeOff int64
 	refused int // RebuildIndexes calls refused with ErrTxnTooBig
 	gen     int
+	// racing: the Create racing an Init is between its invocation and its
+	// return (no crash images then: the oracle knows one mutation in flight)
+	racing    bool
+	conflicts int
 }
 
 func copyDir(src, dst string) error {
@@ -364,15 +376,45 @@ func (CrashScenario) Execute(sim *sched.Sim, ci interface{}, prop string, race b
 				cr.fl = nil
 				_, cr.safeOff = vlogWriteOffset(cr.dir)
 			case "init":
+				var racer *sched.Task
+				raced := false
+				if op.RaceID != "" {
+					id, val, st := op.RaceID, idxRec{K: op.K, N: op.N, V: op.RaceV}, cr.st
+					racer = sim.Go("racer"+strconv.Itoa(i), func() {
+						sim.Yield("mut.op", "race")
+						cr.racing, raced = true, true
+						wt := st.Write(id)
+						err := wt.Create(val)
+						wt.Close()
+						if err == nil {
+							sim.Probe("crash.race-create-acked")
+							v := val
+							cr.acked[id] = &v
+							_, cr.safeOff = vlogWriteOffset(cr.dir)
+						}
+						cr.racing = false
+					})
+				}
 				cr.fl = &flight{kind: "init"}
 				err := cr.st.Init(cr.seedsCB)
 				if err == nil {
 					cr.noteInit()
+				} else if raced && errors.Is(err, badger.ErrConflict) {
+					// the racing Create committed between Init's look at
+					// the id and Init's commit: Init has done nothing
+					cr.conflicts++
+					sim.Probe("crash.init-conflict")
 				} else {
 					h.Violate("C12", "init-error", "", "Init failed: "+err.Error())
 				}
 				cr.fl = nil
 				_, cr.safeOff = vlogWriteOffset(cr.dir)
+				if racer != nil {
+					// the next operation starts after the racing Create
+					for !racer.IsDone() {
+						sim.Yield("crash.op", "wait-racer")
+					}
+				}
 			case "rebuild":
 				cr.qs.Flush()
 				if err := cr.qs.RebuildIndexes(); err != nil && !cr.rebuildRefused(err) {
@@ -423,6 +465,9 @@ func (CrashScenario) Execute(sim *sched.Sim, ci interface{}, prop string, race b
 		}
 		// crash image at the instrumented point the system is parked at
 		for _, t := range sim.Parked() {
+			if cr.racing {
+				break
+			}
 			if isCrashPoint(t.Point) {
 				cr.occ++
 				if c.SamplePct >= 100 || sim.Choose(100, "image") < c.SamplePct {
